@@ -298,6 +298,12 @@ func (p *Proc) newShell(env *wire.Env) *readline.Shell {
 			p.SourceNames = append(p.SourceNames, name)
 		case "file":
 			path := p.Path(fmt.Sprintf("hist-%d.jsonl", i))
+			if h.Unwritable {
+				dir := p.Path(fmt.Sprintf("gone-%d", i))
+				os.RemoveAll(dir)
+				os.MkdirAll(dir, 0o700)
+				path = dir + "/hist.jsonl"
+			}
 			os.Remove(path)
 			f, err := readline.NewHistoryFromFile(path)
 			if err != nil {
@@ -306,6 +312,9 @@ func (p *Proc) newShell(env *wire.Env) *readline.Shell {
 			}
 			for _, e := range h.Entries {
 				f.Write(e)
+			}
+			if h.Unwritable {
+				os.RemoveAll(p.Path(fmt.Sprintf("gone-%d", i)))
 			}
 			p.HistFiles = append(p.HistFiles, path)
 			sh.History.Add(name, f)
